@@ -11,7 +11,7 @@ from props.C06 import describe, rules
 
 REQUIRED_THEOREMS = ['Usid.C02.reject_atomic', 'Usid.C02.accept_valid', 'Usid.C02.accept_faithful',
                      'Usid.C02.malformed_reuse_rejected']
-RULE = ('[also: an ancillary pair offered for reuse whose Values matrix has another number of dimensions than its Indices matrix] [also: verbose=True, lazy data in several chunks, main_dset_attrs, dimension values as float64 / float32 arrays; stored quantity / units observed] [also: refusals by HDF5 itself after the validation passed - an unknown compression filter, chunks larger than the dataset] [optional dtype= and compression= keyword arguments included; every eleventh case lazy data with an explicit element type] random calls of write_main_dataset: data as numpy / dask / empty shape + dtype, dimension lists whose product '
+RULE = ('[also: a pair reused from another file whose name is already taken in the target group] [also: an ancillary pair offered for reuse whose Values matrix has another number of dimensions than its Indices matrix] [also: verbose=True, lazy data in several chunks, main_dset_attrs, dimension values as float64 / float32 arrays; stored quantity / units observed] [also: refusals by HDF5 itself after the validation passed - an unknown compression filter, chunks larger than the dataset] [optional dtype= and compression= keyword arguments included; every eleventh case lazy data with an explicit element type] random calls of write_main_dataset: data as numpy / dask / empty shape + dtype, dimension lists whose product '
         'equals or differs from the data shape, slow_to_fast in {F,T}, custom prefixes (with "-"), reuse of ancillaries '
         'from the same or another file, wrong argument types, and prior group contents with clashing names of every '
         'kind (Position_*, Spectroscopic_*, the main name); after a rejection the corrected call is retried in the '
@@ -58,6 +58,12 @@ def generate(seed, tier):
                       'verbose': rng.random() < 0.15, 'multichunk': rng.random() < 0.5,
                       'main_attrs': rng.choice([None, None, {'note': 5}, {'comment': 'text', 'gain': 2.5}]),
                       'dim_values_as': rng.choice(['list', 'list', 'array', 'f4array'])})
+        # a pair reused from ANOTHER file is copied into the group under its own names: something else already sits
+        # at one of them
+        rq = derived_rng(seed, 'C02q', i)
+        for key in ('pos', 'spec'):
+            if cases[-1]['reuse_' + key] == 'other' and rq.random() < 0.3:
+                cases[-1]['prior'] = cases[-1]['prior'] + ['R%s_%s' % (key, rq.choice(['Indices', 'Values']))]
         if err == 'reuse_pair':
             rp = derived_rng(seed, 'C02r', i)
             side = rp.choice(['pos', 'spec'])
@@ -287,6 +293,9 @@ def _expect_error(inp):
         return True
     if name in inp['prior']:
         return True
+    for key in ('pos', 'spec'):
+        if inp['reuse_' + key] == 'other' and any('R%s_%s' % (key, x) in inp['prior'] for x in ('Indices', 'Values')):
+            return True
     new = [name] + ([] if inp['reuse_pos'] else [pp + 'Indices', pp + 'Values']) + \
         ([] if inp['reuse_spec'] else [sp + 'Indices', sp + 'Values'])
     if len(set(new)) != len(new):
